@@ -381,7 +381,12 @@ func genJSONValue(t *rapid.T) (ptr any, fresh func() any) {
 }
 
 func genNameGen(t *rapid.T) (string, func(v interface{}) string) {
-	switch rapid.IntRange(0, 3).Draw(t, "nameGen") {
+	switch rapid.IntRange(0, 5).Draw(t, "nameGen") {
+	case 4:
+		// any function of the value is a legal GenerateName: the Go type with its pointer star, odd characters
+		return "%T", func(v interface{}) string { return fmt.Sprintf("%T", v) }
+	case 5:
+		return "decorated", func(v interface{}) string { return "*" + cqrs.StructName(v) + "*  " }
 	case 0:
 		return "default", nil
 	case 1:
@@ -429,8 +434,9 @@ func TestJSONMarshalerRoundTrip(t *testing.T) {
 		if got, want := m.NameFromMessage(msg), m.Name(v); got != want {
 			t.Fatalf("NameFromMessage=%q, Name(v)=%q", got, want)
 		}
-		// name must also be the same for the non-pointer value
-		if reflect.TypeOf(v).Kind() == reflect.Ptr {
+		// name must also be the same for the non-pointer value (a law of the library's own name generators; a custom
+		// generator such as %T may tell pointers from values if it likes)
+		if builtin := ngName != "%T" && ngName != "decorated"; builtin && reflect.TypeOf(v).Kind() == reflect.Ptr {
 			if m.Name(reflect.ValueOf(v).Elem().Interface()) != m.Name(v) {
 				t.Fatalf("Name differs between pointer and value: %q vs %q", m.Name(reflect.ValueOf(v).Elem().Interface()), m.Name(v))
 			}
